@@ -50,6 +50,8 @@ struct CtlState {
 struct Ctl {
     st: Mutex<CtlState>,
     cv: Condvar,
+    /// the merged, ordered event list (semantic events and pause points passed)
+    events: Arc<Mutex<Vec<String>>>,
 }
 
 fn thread_name() -> String {
@@ -58,13 +60,16 @@ fn thread_name() -> String {
 
 impl Ctl {
     fn new() -> Arc<Self> {
-        Arc::new(Ctl { st: Mutex::new(CtlState::default()), cv: Condvar::new() })
+        Arc::new(Ctl { st: Mutex::new(CtlState::default()), cv: Condvar::new(), events: Arc::new(Mutex::new(vec![])) })
     }
     fn hook(self: &Arc<Self>, point: &'static str) {
         let me = thread_name();
         let mut st = self.st.lock().unwrap();
         if me == "T1" || me == "T2" {
             st.log.push((me.clone(), point.to_string()));
+            if !point.starts_with("backend.") {
+                self.events.lock().unwrap().push(format!("{me} at {point}"));
+            }
         }
         if me == "T1" {
             st.points_of_first.push(point.to_string());
@@ -308,11 +313,12 @@ fn run_schedule(cfg: &Cfg, first: Call, second: Call, park: Option<(&str, usize)
     let db = open_db(backend.clone(), cfg).expect("create");
     let completed = AtomicU64::new(0);
     let next_version = AtomicU64::new(1);
-    let events: Mutex<Vec<String>> = Mutex::new(vec![]);
+    let events_arc = ctl.events.clone();
+    let events: &Mutex<Vec<String>> = &events_arc;
     let spare: Mutex<Option<(redb::ReadTransaction, u64)>> = Mutex::new(None);
     // a committed base state and a live reader pinned to it, then a second commit
     {
-        let env = Env { db: &db, completed: &completed, next_version: &next_version, events: &events, spare_reader: &spare };
+        let env = Env { db: &db, completed: &completed, next_version: &next_version, events, spare_reader: &spare };
         let _ = do_call(&env, Call::WriteImm);
         let rt = db.begin_read().unwrap();
         *spare.lock().unwrap() = Some((rt, 1));
@@ -325,8 +331,8 @@ fn run_schedule(cfg: &Cfg, first: Call, second: Call, park: Option<(&str, usize)
     let c2 = ctl.clone();
     redb::verif::verif_set_pause_hook(Some(Arc::new(move |p| c2.hook(p))));
     let (r1, r2, second_blocked) = std::thread::scope(|s| {
-        let env1 = Env { db: &db, completed: &completed, next_version: &next_version, events: &events, spare_reader: &spare };
-        let env2 = Env { db: &db, completed: &completed, next_version: &next_version, events: &events, spare_reader: &spare };
+        let env1 = Env { db: &db, completed: &completed, next_version: &next_version, events, spare_reader: &spare };
+        let env2 = Env { db: &db, completed: &completed, next_version: &next_version, events, spare_reader: &spare };
         let done1 = Arc::new(std::sync::atomic::AtomicBool::new(false));
         let d1 = done1.clone();
         let h1 = std::thread::Builder::new().name("T1".into()).spawn_scoped(s, move || {
